@@ -32,9 +32,9 @@ func (t *udpT) Datagram() bool { return true }
 func (t *udpT) Build(bw bool) {
 	t.w = udpw.New(udpw.Opts{NStart: 4, MaxRetransmit: 2, LimitTotal: 8, LimitEndpoint: 8, QueueSize: 4, BlockWise: bw, SZX: blockwise.SZX16, DTLS: t.dtls})
 }
-func (t *udpT) Acquire(ctx context.Context) *pool.Message { return t.w.CC.AcquireMessage(ctx) }
+func (t *udpT) Acquire(ctx context.Context) *pool.Message   { return t.w.CC.AcquireMessage(ctx) }
 func (t *udpT) Do(req *pool.Message) (*pool.Message, error) { return t.w.CC.Do(req) }
-func (t *udpT) Release(m *pool.Message) { t.w.CC.ReleaseMessage(m) }
+func (t *udpT) Release(m *pool.Message)                     { t.w.CC.ReleaseMessage(m) }
 func (t *udpT) NewOuts() []message.Message {
 	var ms []message.Message
 	for _, o := range t.w.NewOuts() {
@@ -47,5 +47,5 @@ func (t *udpT) Inject(m message.Message) {
 	vrt.Observe("wire-in %s", udpw.Describe(m))
 	_ = t.w.Inject(m)
 }
-func (t *udpT) PeerMID() int32           { return t.w.PeerMID() }
-func (t *udpT) Errors() []string         { return t.w.Errors }
+func (t *udpT) PeerMID() int32   { return t.w.PeerMID() }
+func (t *udpT) Errors() []string { return t.w.Errors }
